@@ -1,7 +1,7 @@
 # C17 — concurrent queues return every element exactly once (structural part; DESIGN.md §5 C17)
 import re
 from engine.core import AnalysisBroken, P, T, callee_of, callee_short, cond_atoms, loc_of, strip, block_path
-from engine.kinds import FactFlow, CountFlow, precedes_on_all_paths, reaching_init
+from engine.kinds import FactFlow, CountFlow, precedes_on_all_paths, reaching_init, eval_tree
 from .common import facts, lib, driver, witness, local_init
 
 EXPLANATION = (
@@ -18,7 +18,7 @@ EXPLANATION = (
     "linearizability of the deque; moodycamel's ConcurrentQueue (third party) is not analysed.")
 ASSUMPTIONS = ["std::atomic<range>::compare_exchange_weak is atomic on the 64-bit range word", "tagged_ptr_pair::cas is a 128-bit compare-exchange"]
 THOROUGH_CONFIGS = [["-UNDEBUG", "-DPIKA_DEBUG"]]
-FLOORS = {"C17.R8": 4, "C17.R1": 6, "C17.R2": 2, "C17.R3": 3, "C17.R4": 12, "C17.R5": 9, "C17.R6": 1, "C17.R7": 2}
+FLOORS = {"C17.R8": 4, "C17.R9": 20, "C17.R1": 6, "C17.R2": 2, "C17.R3": 3, "C17.R4": 12, "C17.R5": 9, "C17.R6": 1, "C17.R7": 2}
 
 CIQ = "pika::concurrency::detail::contiguous_index_queue"
 _cache = {}
@@ -267,6 +267,120 @@ def run(rep, tier):
                     rep.bad("C17.R4", fn, fn.loc, short + ":stabilize", "%s must call %s after installing an unstable anchor" % (short, want))
     if ncas < 10:
         raise AnalysisBroken("deque: only %d cas sites found" % ncas)
+    # ---- R9: what the deque operations report and hand out
+    rep.rule("C17.R9", "K4/K7 (result agreement): a deque pop hands the payload of the node it unlinked to the caller (r = data) and returns true exactly on the paths where its anchor "
+             "compare-exchange succeeded, false only after seeing the deque empty; a push returns true exactly after its anchor compare-exchange succeeded; a failed "
+             "compare-exchange leads back to a re-read of the anchor (the operation is a retry loop); the link repair of stabilize_left/right installs the observed tag + 1")
+    from engine.kinds import guarded_returns as _gr9, loop_of as _lo9
+    n9 = 0
+    for short in ("pop_left", "pop_right", "push_left", "push_right"):
+        fs = [f for f in D.find(r"^pika::concurrency::detail::deque::%s$" % short, pattern=False) if f.parent == -1 and any(
+            e.get("k") == "call" and callee_short(e) == "cas" for _, _, e in f.all_events())]
+        if not fs:
+            raise AnalysisBroken("deque::%s (the overload that performs the exchange) not instantiated" % short)
+        fn = fs[0]
+        ff9 = FactFlow(fn)
+        cas = [(b, i, e) for b, i, e in fn.all_events() if e.get("k") == "call" and callee_short(e) == "cas" and P(e.get("recv")).endswith("anchor_")]
+        for b, i, e in cas:
+            n9 += 1
+            if _lo9(fn, b) is None:
+                rep.bad("C17.R9", fn, loc_of(e), short + ":no-retry", "%s attempts its anchor compare-exchange outside a retry loop: when the exchange fails because another thread changed "
+                        "the anchor the operation gives up (a push reports failure / a pop reports an empty deque although elements are present)" % short)
+            else:
+                rep.ok("C17.R9", fn, "%s: the anchor exchange at %s sits in a retry loop" % (short, loc_of(e)))
+        for leaf, fb, ev in _gr9(fn, ff9):
+            v = strip(leaf)
+            if v.get("k") != "lit":
+                continue
+            won = any(t and ".cas(" in a and "anchor_" in a for a, t in fb)
+            empty = any(t and re.search(r"get_(left|right)_ptr\(\) == nullptr|nullptr == .*get_(left|right)_ptr\(\)", a) for a, t in fb)
+            nomem = any(t and re.search(r"^(n|\w+) == nullptr$|^nullptr == \w+$", a) for a, t in fb)
+            n9 += 1
+            if v.get("v") is True and not won:
+                pass      # reported by R4 (true-without-cas)
+            elif v.get("v") is False and won:
+                rep.bad("C17.R9", fn, loc_of(ev), short + ":false-after-cas", "%s returns false on a path where its anchor compare-exchange succeeded: the element was %s but the caller is told "
+                        "the operation failed (%s)" % (short, "unlinked" if short.startswith("pop") else "linked in", "it is lost" if short.startswith("pop") else "it will be pushed again: duplicate"))
+            elif v.get("v") is False and short.startswith("pop") and not empty:
+                rep.bad("C17.R9", fn, loc_of(ev), short + ":false-not-empty", "%s returns false on a path that has not seen the deque empty" % short)
+            elif v.get("v") is False and short.startswith("push") and not nomem:
+                rep.bad("C17.R9", fn, loc_of(ev), short + ":false-not-oom", "%s returns false although the node was allocated" % short)
+            else:
+                rep.ok("C17.R9", fn, "%s: return %s at %s agrees with the exchange" % (short, v.get("v"), loc_of(ev)))
+        if short.startswith("pop") and fn.params:
+            outp = fn.params[0]["name"]
+            wr = lambda e: (e.get("k") == "call" and e.get("op") == "=" and e.get("recv") is not None and P(e["recv"]) in (outp, "*" + outp) and "->data" in T(e["args"][0])) or \
+                (e.get("k") == "write" and P(e["lhs"]) in (outp, "*" + outp) and "->data" in T(e.get("rhs")))
+            for b, i, e in fn.all_events():
+                if e.get("k") == "return" and strip(e.get("e")).get("k") == "lit" and strip(e.get("e")).get("v") is True:
+                    n9 += 1
+                    if precedes_on_all_paths(fn, wr, (b, i), reset_pred=lambda x: x.get("k") == "call" and callee_short(x) == "lrs"):
+                        rep.ok("C17.R9", fn, "%s hands the unlinked node's payload to the caller before reporting success" % short)
+                    else:
+                        rep.bad("C17.R9", fn, loc_of(e), short + ":payload-not-returned", "%s reports success without having stored the unlinked node's data in the caller's object "
+                                "(since the last anchor load): the element is consumed but the caller receives a stale / default value" % short)
+    for short in ("pop_left", "pop_right"):
+        fs = [f for f in D.find(r"^pika::concurrency::detail::deque::%s$" % short, pattern=False) if f.parent == -1 and any(
+            e.get("k") == "call" and callee_short(e) == "cas" for _, _, e in f.all_events())]
+        fn = fs[0]
+        outp = fn.params[0]["name"] if fn.params else "r"
+        rd = lambda e: (e.get("k") == "call" and e.get("op") == "=" and "->data" in T((e.get("args") or [{}])[0])) or (e.get("k") == "write" and "->data" in T(e.get("rhs")))
+        for b, i, e in fn.all_events():
+            if e.get("k") == "call" and callee_short(e) == "dealloc_node":
+                n9 += 1
+                if precedes_on_all_paths(fn, rd, (b, i), reset_pred=lambda x: x.get("k") == "call" and callee_short(x) == "lrs"):
+                    rep.ok("C17.R9", fn, "%s reads the payload before the node is given back to the pool" % short)
+                else:
+                    rep.bad("C17.R9", fn, loc_of(e), short + ":payload-after-free", "%s gives the unlinked node back to the pool before (or without) reading its payload: the node can be "
+                            "reused by a concurrent push, the caller receives another element's value" % short)
+    for short, side in (("stabilize_left", "left"), ("stabilize_right", "right")):
+        fs = [f for f in D.find(r"^pika::concurrency::detail::deque::%s$" % short, pattern=False) if f.parent == -1]
+        if not fs:
+            raise AnalysisBroken("deque::%s not instantiated" % short)
+        fn = fs[0]
+        # it gives up early only because the anchor changed or the link repair lost; it repairs the link only when it is stale
+        ffs = FactFlow(fn)
+        for b, i, e in fn.all_events():
+            fb = ffs.before.get((b, i)) or frozenset()
+            if e.get("k") == "return":
+                n9 += 1
+                chg = any(t and re.search(r"anchor_ != lrs|lrs != .*anchor_", a) for a, t in fb) or any((not t) and re.search(r"anchor_ == lrs|lrs == .*anchor_", a) for a, t in fb)
+                lost = any((not t) and "compare_exchange_strong(" in a for a, t in fb)
+                if chg or lost:
+                    rep.ok("C17.R9", fn, "%s gives up at %s only because the anchor changed / the link repair lost" % (short, loc_of(e)))
+                else:
+                    rep.bad("C17.R9", fn, loc_of(e), short + ":gives-up", "%s returns early on a path where the anchor was not seen changed and the link repair did not fail: the "
+                            "deque is never marked stable again, every later operation spins in stabilize" % short)
+            if e.get("k") == "call" and callee_short(e) == "compare_exchange_strong" and re.search(r"->%s$" % side, P(e.get("recv") or {})):
+                stale = any(t and re.search(r"prevnext\.get_ptr\(\) != lrs|lrs\.get_\w+_ptr\(\) != prevnext", a) for a, t in fb) or \
+                    any((not t) and re.search(r"prevnext\.get_ptr\(\) == lrs|lrs\.get_\w+_ptr\(\) == prevnext", a) for a, t in fb)
+                n9 += 1
+                if stale:
+                    rep.ok("C17.R9", fn, "%s repairs the inward link only when it does not point at the new end node" % short)
+                else:
+                    rep.bad("C17.R9", fn, loc_of(e), short + ":repair-guard", "%s rewrites the neighbour's link on a path where it was not seen stale (and skips it when it is): the new end node "
+                            "is never linked in, the next pop at that end walks past it" % short)
+        xs = [(b, i, e) for b, i, e in fn.all_events() if e.get("k") == "call" and callee_short(e) == "compare_exchange_strong" and re.search(r"->%s$" % side, P(e.get("recv") or {}))]
+        if not xs:
+            rep.bad("C17.R9", fn, fn.loc, short + ":no-link-repair", "%s no longer repairs the inward link of the old end node (compare_exchange_strong on ->%s)" % (short, side))
+        for b, i, e in xs:
+            n9 += 1
+            exp = P(e["args"][0])
+            new = strip(e["args"][1])
+            targs = new.get("args") if isinstance(new, dict) and new.get("k") == "construct" else None
+            okt = False
+            if targs and len(targs) >= 2:
+                try:
+                    okt = eval_tree(targs[1], {exp + ".get_tag()": 7}) == 8
+                except Exception:
+                    okt = False
+            if okt:
+                rep.ok("C17.R9", fn, "%s installs the observed link tag + 1" % short)
+            else:
+                rep.bad("C17.R9", fn, loc_of(e), short + ":link-tag", "%s repairs the link with %s, whose tag is not the observed tag + 1: a concurrent helper's identical repair (ABA) is not told apart" % (short, T(e["args"][1])))
+    if n9 < 20:
+        raise AnalysisBroken("C17.R9 examined only %d instances" % n9)
+
     # ---- R8: link tags keep counting when a node is recycled
     rep.rule("C17.R8", "K8 (ABA across node reuse): deque nodes are recycled through a LIFO free list, and a thread delayed inside stabilize_left/right may still hold a "
              "(pointer, tag) pair read from a link of a node's previous life.  The tags of a node's links therefore continue from the value found in the recycled "
